@@ -1176,10 +1176,13 @@ class Facts:
         return out
 
     # ---- effects -----------------------------------------------------------------------------
-    def effects(self):
-        """instance id -> frozenset of effect tags, by fixpoint over the mono call graph"""
-        if self._eff is not None:
+    def effects(self, creator=True):
+        """instance id -> frozenset of effect tags, by fixpoint over the mono call graph.  creator=False: without attributing to the
+        function that builds a borrowed trait object what may be done through it (virtual calls still count where they are made)"""
+        if creator and self._eff is not None:
             return self._eff
+        if not creator and getattr(self, "_eff_nc", None) is not None:
+            return self._eff_nc
         from effects_table import leaf_effects, body_override
         n = len(self.instances)
         eff = [set() for _ in range(n)]
@@ -1194,7 +1197,7 @@ class Facts:
                 continue
             if inst["def"] in self.def_tags and inst["kind"] == "item":
                 eff[i] |= self.def_tags[inst["def"]]
-            for bb, kind, to, e in self.inst_callees(inst):
+            for bb, kind, to, e in self.inst_callees(inst, creator=creator):
                 if to is None:
                     if kind == "unresolved" or kind == "generic":
                         eff[i].add("USER-CALLBACK")
@@ -1215,14 +1218,17 @@ class Facts:
                     if not eff[c] <= eff[i]:
                         eff[i] |= eff[c]
                         changed = True
+        if not creator:
+            self._eff_nc = [frozenset(e) for e in eff]
+            return self._eff_nc
         self._eff = [frozenset(e) for e in eff]
         self._callees = callees
         return self._eff
 
-    def call_effects(self, inst, bb, creator=True):
+    def call_effects(self, inst, bb, creator=True, deep=False):
         """effects of the call/drop at block bb of instance inst (creator=False: without what may later be done through a trait object
-        that is merely created in this block)"""
-        eff = self.effects()
+        that is merely created in this block; deep=True: nor in any function reached from it)"""
+        eff = self.effects(creator=not (deep and not creator))
         out = set()
         for _, kind, to, e in self.inst_callees(inst, bb, creator=creator):
             if to is None and kind == "virtual" and e.get("method") == "drop_in_place" and "std::any::Any" in e.get("dyn", ""):
@@ -1234,7 +1240,7 @@ class Facts:
                 out |= eff[to]
         return out
 
-    def effects_at(self, f, bb, inst=None, creator=True):
+    def effects_at(self, f, bb, inst=None, creator=True, deep=False):
         """effects of the call/drop terminating block bb of f.  Works for inlined bodies (the block remembers the instance
         and the original block it was copied from) and for plain bodies (inst = the instance to use)."""
         b = f.blocks[bb]
@@ -1245,14 +1251,14 @@ class Facts:
             # a block of a body the inliner built for a call (an iterator consumer read as a loop, a dispatch over the implementations of
             # a trait): its calls have the effects the call graph computed for that whole call
             si, sb = b["eff_site"]
-            return self.call_effects(self.instances[si], sb, creator=creator)
+            return self.call_effects(self.instances[si], sb, creator=creator, deep=deep)
         if iid is not None:
-            return self.call_effects(self.instances[iid], b["obb"], creator=creator)
+            return self.call_effects(self.instances[iid], b["obb"], creator=creator, deep=deep)
         if getattr(f, "is_inlined", False) and inst is None:
             inst = getattr(f, "root_inst", None)
         if inst is None:
             raise CheckerError("effects_at: no instance for %s" % f.id)
-        return self.call_effects(inst, b.get("obb", bb), creator=creator)
+        return self.call_effects(inst, b.get("obb", bb), creator=creator, deep=deep)
 
     def effect_witness(self, start_id, tag, limit=12):
         """a call chain (list of instance names) from instance start_id to a leaf carrying `tag`"""
